@@ -540,6 +540,12 @@ func checkC07(c *Ctx) {
 					for i, l := range as.Lhs {
 						if _, isSel := unparen(l).(*ast.SelectorExpr); isSel && lastField(info, l) == dst {
 							got, ok = x.str(as.Rhs[i]), true
+							// a local that was filled by a copy before being stored
+							if id := identOf(as.Rhs[i]); id != nil {
+								if cp, isCopy := copies["$"+id.Name]; isCopy {
+									got = cp
+								}
+							}
 						}
 					}
 				}
@@ -645,12 +651,39 @@ func checkC07(c *Ctx) {
 		}
 		return true
 	})
+	// a snapshot built step by step: s := new(Snapshot); s.F = …; return s
+	var built map[string]ast.Expr
+	builtName := ""
 	if lit == nil {
-		c.undecided("C07.R7", "no Snapshot literal in Snapshot()")
-		return
+		walkNoLit(m.snapshot.Body, func(n ast.Node) bool {
+			if r, ok := n.(*ast.ReturnStmt); ok && len(r.Results) == 1 {
+				if id := identOf(r.Results[0]); id != nil {
+					if fields, ok := w.builtFields(m.snapshot, info.Uses[id]); ok {
+						built, builtName = fields, id.Name
+					}
+				}
+			}
+			return true
+		})
+		if built == nil {
+			c.undecided("C07.R7", "no Snapshot literal (nor a Snapshot built field by field) in Snapshot()")
+			return
+		}
+	}
+	litPos := m.snapshot.Decl.Pos()
+	if lit != nil {
+		litPos = lit.Pos()
 	}
 	srcOf := func(fld *types.Var) string {
-		v := litField(lit, fld.Name())
+		var v ast.Expr
+		if lit != nil {
+			v = litField(lit, fld.Name())
+		} else {
+			v = built[fld.Name()]
+			if cp, ok := scopies["$"+builtName+"."+fld.Name()]; ok {
+				return "copy of " + cp
+			}
+		}
 		if v == nil {
 			return "(unset)"
 		}
@@ -677,7 +710,7 @@ func checkC07(c *Ctx) {
 		got := srcOf(pair.sf)
 		want := srecv + "." + pair.rf.Name()
 		okS := got == want || got == "copy of "+want
-		c.ob("C07.R7", m.snapshot.Name+"/"+pair.sf.Name(), w.Pos(lit.Pos()), okS, map[bool]string{true: "Snapshot." + pair.sf.Name() + " is " + got, false: "Snapshot." + pair.sf.Name() + " is " + got + ", not the runner's " + pair.rf.Name() + " (the state as of the last node entry)"}[okS])
+		c.ob("C07.R7", m.snapshot.Name+"/"+pair.sf.Name(), w.Pos(litPos), okS, map[bool]string{true: "Snapshot." + pair.sf.Name() + " is " + got, false: "Snapshot." + pair.sf.Name() + " is " + got + ", not the runner's " + pair.rf.Name() + " (the state as of the last node entry)"}[okS])
 	}
 }
 
@@ -803,6 +836,16 @@ func mapCopiesD(w *World, f *Func, depth int) map[string]string {
 			for i, nm := range n.Names {
 				if len(n.Values) == len(n.Names) {
 					record("$"+nm.Name, n.Values[i], n.Pos())
+				}
+			}
+		case *ast.ExprStmt:
+			// maps.Copy(dst, src) into a map made just before: entry-by-entry copy
+			if call, ok := n.X.(*ast.CallExpr); ok && len(call.Args) == 2 {
+				if callee := calleeOf(info, call); callee != nil && funcFullName(callee) == "maps.Copy" {
+					dst := name(call.Args[0])
+					if pos, ok := made[dst]; ok && pos < n.Pos() {
+						out[dst] = x.str(call.Args[1])
+					}
 				}
 			}
 		case *ast.RangeStmt:
